@@ -23,7 +23,7 @@ ASSUMPTIONS = ['the reference machine sim/fjmodel.py is the meaning of the state
 
 def plan(tier):
     if tier == 'thorough':
-        return {'cases': 600000, 'chunk': 500, 'budget_s': 1200, 'case_timeout_s': 20, 'minimise_budget_s': 180}
+        return {'cases': 2000000, 'chunk': 1000, 'budget_s': 1200, 'case_timeout_s': 20, 'minimise_budget_s': 180}
     return {'cases': 120000, 'chunk': 500, 'budget_s': 70, 'case_timeout_s': 20, 'minimise_budget_s': 60}
 
 
